@@ -493,6 +493,41 @@ impl<'tcx> Cx<'tcx> {
                             Some(b) => format!("{{\"str\":{}}}", esc(&String::from_utf8_lossy(b))),
                             None => "{\"indirect\":true}".to_string(),
                         }
+                    } else if matches!(ty.kind(), ty::Ref(_, t, _) if matches!(t.kind(), ty::Slice(e) if *e == tcx.types.u8)) {
+                        // a byte-string constant `&[u8]` (e.g. `const NAME: &[u8] = b"..."`): the bytes it points to
+                        let cv = c.const_.eval(tcx, typing_env, c.span).unwrap();
+                        let mut out = format!("{{\"indirect\":true,\"dbg\":{}}}", esc(&format!("{}", c.const_)));
+                        if let ConstValue::Indirect { alloc_id, offset } = cv {
+                            if let Some(GlobalAlloc::Memory(alloc)) = tcx.try_get_global_alloc(alloc_id) {
+                                let a = alloc.inner();
+                                let off = offset.bytes() as usize;
+                                if off + 16 <= a.len() {
+                                    let rd = |lo: usize| -> u64 {
+                                        let b = a.inspect_with_uninit_and_ptr_outside_interpreter(lo..lo + 8);
+                                        let mut v: u64 = 0;
+                                        for (i, x) in b.iter().enumerate() {
+                                            v |= (*x as u64) << (8 * i);
+                                        }
+                                        v
+                                    };
+                                    let inner_off = rd(off) as usize;
+                                    let len = rd(off + 8) as usize;
+                                    for (poff, prov) in a.provenance().ptrs().iter() {
+                                        if poff.bytes() as usize == off {
+                                            if let Some(GlobalAlloc::Memory(ia)) = tcx.try_get_global_alloc(prov.alloc_id()) {
+                                                let ib = ia.inner();
+                                                if len <= 4096 && inner_off + len <= ib.len() {
+                                                    let bytes = ib.inspect_with_uninit_and_ptr_outside_interpreter(inner_off..inner_off + len);
+                                                    let vals: Vec<String> = bytes.iter().map(|b| format!("\"{}\"", b)).collect();
+                                                    out = format!("{{\"ref_array\":[{}],\"bits\":8,\"slice\":true}}", vals.join(","));
+                                                }
+                                            }
+                                        }
+                                    }
+                                }
+                            }
+                        }
+                        out
                     } else {
                         // an aggregate constant by value (e.g. a lookup table `const T: [u8; 4]`): read it from its allocation
                         let mut out = format!("{{\"indirect\":true,\"dbg\":{}}}", esc(&format!("{}", c.const_)));
